@@ -536,4 +536,344 @@ example : checkIdentifierList
     { aliases := [("consoles", "console01,console02,console03"), ("servers", "server01,server02"), ("all_ko", "servers,consoles")] }
     "all_ko" = ["servers", "consoles"] := by decide
 
+/-! ## `@` and `#` spread a homogeneous group over instances -/
+
+/-- the identifiers still free for the `@` assignment: the reference list minus what is already assigned in the group -/
+def atAvailable (m : Mapper) (atIds : List String) (procs : List GProc) : List String :=
+  (refIdentifiers m atIds).filter (fun i => !(assignedOf (sortByIndex procs)).contains i)
+
+/-- **`@` assignment** (`assign_at_identifiers`), positional form over the processes sorted by process index, for any group
+    (any mix of rules, any earlier assignment): the k-th process that still carries `@` gets the k-th free identifier of the
+    reference list; when the free identifiers are exhausted the processes in excess are left unassigned (no roll-over);
+    the processes without `@` are not touched. -/
+theorem C18_at_assignment (m : Mapper) (atIds : List String) (procs : List GProc) :
+    let sorted := sortByIndex procs
+    let avail := atAvailable m atIds procs
+    let res := assignAt m atIds procs
+    res.length = sorted.length ∧
+    ∀ k p, sorted[k]? = some p →
+      res[k]? = some (if hasAt p then
+        (match avail[(sorted.take k).countP hasAt]? with | some i => atAssigned p i | none => p) else p) := by
+  intro sorted avail res
+  have hres : res = zipAssignAt sorted avail := by
+    simp only [res, assignAt]
+    split
+    · rename_i hall
+      rw [zipAssignAt_noAt]
+      intro p hp
+      have := (List.all_eq_true.mp hall) p hp
+      simpa [hasAt] using this
+    · rfl
+  rw [hres]
+  exact ⟨zipAssignAt_length _ _, zipAssignAt_getElem _ _⟩
+
+/-- **`@` is injective**: two different processes never receive the same identifier from one resolution, every identifier
+    given belongs to the reference list and was not assigned in the group before (the reference list has no duplicate:
+    it comes out of `mapper.filter` / the instance dictionary). -/
+theorem C18_at_assignment_injective (m : Mapper) (atIds : List String) (procs : List GProc)
+    (hnd : (refIdentifiers m atIds).Nodup) (k1 k2 : Nat) (p1 p2 : GProc) (i1 i2 : String) (hlt : k1 < k2)
+    (h1 : (sortByIndex procs)[k1]? = some p1) (_h2 : (sortByIndex procs)[k2]? = some p2)
+    (a1 : hasAt p1 = true) (_a2 : hasAt p2 = true)
+    (g1 : (atAvailable m atIds procs)[((sortByIndex procs).take k1).countP hasAt]? = some i1)
+    (g2 : (atAvailable m atIds procs)[((sortByIndex procs).take k2).countP hasAt]? = some i2) :
+    i1 ≠ i2 ∧ i1 ∈ refIdentifiers m atIds ∧ i1 ∉ assignedOf (sortByIndex procs) := by
+  have hav : (atAvailable m atIds procs).Nodup := List.Nodup.sublist List.filter_sublist hnd
+  refine ⟨nodup_getElem?_ne _ _ _ i1 i2 hav (countP_take_lt hlt h1 a1) g1 g2, ?_⟩
+  have hm := List.mem_of_getElem? g1
+  simp only [atAvailable, List.mem_filter] at hm
+  refine ⟨hm.1, ?_⟩
+  simpa using hm.2
+
+/-- **`#` assignment** (`assign_hash_identifiers`) on a fresh group in which every process carries `#`: it never fails
+    when at least one identifier of the list is known, and the k-th process (by process index) is assigned identifier
+    `k mod n` of the reference list — a balanced round-robin in reference order. -/
+theorem C18_hash_assignment (m : Mapper) (hashIds : List String) (procs : List GProc)
+    (hfresh : ∀ p ∈ procs, p.ids.hashIds.isEmpty = false ∧ p.ids.identifiers = [])
+    (hne : refIdentifiers m hashIds ≠ []) :
+    let sorted := sortByIndex procs
+    let ref := refIdentifiers m hashIds
+    ∃ res, assignHash m hashIds procs = .ok res ∧ res.length = sorted.length ∧
+      ∀ k p, sorted[k]? = some p → res[k]? = some (hashAssigned p (ref.getD (k % ref.length) "")) := by
+  intro sorted ref
+  have hs : ∀ p ∈ sorted, p.ids.hashIds.isEmpty = false ∧ p.ids.identifiers = [] :=
+    fun p hp => hfresh p ((mem_sortByIndex p procs).mp hp)
+  have hlen : 0 < ref.length := List.length_pos_iff.mpr hne
+  unfold assignHash
+  simp only
+  split
+  · rename_i hall
+    -- every process carries `#`: the list is empty
+    have : sorted = [] := by
+      cases hso : sorted with
+      | nil => rfl
+      | cons p t =>
+        have hp := (List.all_eq_true.mp hall) p (by simp [sorted] at hso ⊢; simp [hso])
+        have := (hs p (by simp [hso])).1
+        simp [this] at hp
+    refine ⟨sortByIndex procs, rfl, rfl, ?_⟩
+    intro k p hk
+    have hk' : (sortByIndex procs)[k]? = some p := hk
+    have hnil : sortByIndex procs = [] := this
+    rw [hnil] at hk'
+    simp at hk'
+  · have hassigned : assignedOf (sortByIndex procs) = [] := by
+      unfold assignedOf
+      rw [List.filterMap_eq_nil_iff]
+      intro p hp
+      simp [(hs p hp).2]
+    simp only [hassigned, List.all_nil, if_true, List.count_nil, List.map_const']
+    have hrr : List.replicate (refIdentifiers m hashIds).length 0 = rr (refIdentifiers m hashIds).length 0 0 := by simp [rr]
+    rw [hrr]
+    obtain ⟨l', e1, e2, e3⟩ := loopAssignHash_rr (refIdentifiers m hashIds) (sortByIndex procs) 0 0 hlen (fun p hp => (hs p hp).1)
+    exact ⟨l', e1, e2, fun k p hk => by rw [e3 k p hk, Nat.zero_add]⟩
+
+/-- the two ways `assign_hash_identifiers` raises (known findings `C18:hash:empty-reference`,
+    `C18:hash:assigned-outside-reference`): no identifier of the `#` list is known; a process of the group that does not
+    carry `#` has identifiers outside the reference list (e.g. the default `*`) -/
+theorem C18_hash_assignment_failures :
+    assignHash { instances := ["i1"], nicks := [("n1", "i1")] } ["typo"]
+      [{ name := "p0", index := 0, ids := { identifiers := [], hashIds := ["typo"] } }] = .error "ValueError" ∧
+    assignHash { instances := ["i1"], nicks := [("n1", "i1")] } ["*"]
+      [{ name := "p0", index := 0, ids := { identifiers := [], hashIds := ["*"] } },
+       { name := "p1", index := 1, ids := {} }] = .error "KeyError" :=
+  ⟨by rfl, by rfl⟩
+
+/-! ## `[supvisors]` options -/
+
+/-- **Integer, enumeration and boolean options are exactly the documented function of their text**: the value when the
+    text denotes a member of the documented range, else the default (`Supv.Spec.C18.specRanged/specEnum/specBool`, the
+    functions the judge compares the implementation with) — whatever `SYNCHRO_DEFAULT_OPTIONS` currently holds. -/
+theorem C18_options_meet_spec (dflt : List String) (cfg : Config) :
+    let o := convertOptions dflt cfg
+    o.multicastTtl = specRanged 0 255 1 (lookupStr cfg "multicast_ttl") ∧
+    o.eventPort = specRanged 1 65535 0 (lookupStr cfg "event_port") ∧
+    o.synchroTimeout = specRanged 15 1200 15 (lookupStr cfg "synchro_timeout") ∧
+    o.inactivityTicks = specRanged 2 720 2 (lookupStr cfg "inactivity_ticks") ∧
+    o.statsHisto = specRanged 10 1500 200 (lookupStr cfg "stats_histo") ∧
+    o.eventLink = specEnum linkNames "NONE" (lookupStr cfg "event_link") ∧
+    o.conciliation = specEnum concNames "USER" (lookupStr cfg "conciliation_strategy") ∧
+    o.startingStrategy = specEnum startNames "CONFIG" (lookupStr cfg "starting_strategy") ∧
+    o.failureStrategy = specEnum failNames "CONTINUE" (lookupStr cfg "supvisors_failure_strategy") ∧
+    o.autoFence = specBool false (lookupStr cfg "auto_fence") ∧
+    o.irixMode = specBool false (lookupStr cfg "stats_irix_mode") := by
+  intro o
+  refine ⟨?_, ?_, ?_, ?_, ?_, ?_, ?_, ?_, ?_, ?_, ?_⟩
+  · exact getValue_ranged cfg "multicast_ttl" 0 255 1
+  · exact getValue_ranged cfg "event_port" 1 65535 0
+  · exact getValue_ranged cfg "synchro_timeout" 15 1200 15
+  · exact getValue_ranged cfg "inactivity_ticks" 2 720 2
+  · exact getValue_ranged cfg "stats_histo" 10 1500 200
+  · exact getValue_enum cfg "event_link" linkNames "NONE"
+  · exact getValue_enum cfg "conciliation_strategy" concNames "USER"
+  · exact getValue_enum cfg "starting_strategy" startNames "CONFIG"
+  · exact getValue_enum cfg "supvisors_failure_strategy" failNames "CONTINUE"
+  · exact getValue_bool cfg "auto_fence" false
+  · exact getValue_bool cfg "stats_irix_mode" false
+
+/-- **Every option outside its documented range falls back to its default** — per converter, for every dictionary:
+    `to_ttl`, `to_port_num`, `to_timeout`, `to_ticks`, `to_histo` give a value in their range or the default;
+    `to_event_link` and the three `to_*_strategy` give a member of their enumeration. -/
+theorem C18_option_in_range_or_default (dflt : List String) (cfg : Config) :
+    let o := convertOptions dflt cfg
+    (o.multicastTtl = 1 ∨ (0 ≤ o.multicastTtl ∧ o.multicastTtl ≤ 255)) ∧
+    (o.eventPort = 0 ∨ (1 ≤ o.eventPort ∧ o.eventPort ≤ 65535)) ∧
+    (15 ≤ o.synchroTimeout ∧ o.synchroTimeout ≤ 1200) ∧
+    (2 ≤ o.inactivityTicks ∧ o.inactivityTicks ≤ 720) ∧
+    (10 ≤ o.statsHisto ∧ o.statsHisto ≤ 1500) ∧
+    o.eventLink ∈ linkNames ∧ o.conciliation ∈ concNames ∧ o.startingStrategy ∈ startNames ∧
+    o.failureStrategy ∈ failNames := by
+  intro o
+  obtain ⟨h1, h2, h3, h4, h5, h6, h7, h8, h9, _, _⟩ := C18_options_meet_spec dflt cfg
+  refine ⟨?_, ?_, ?_, ?_, ?_, ?_, ?_, ?_, ?_⟩
+  · rw [h1]; exact specRanged_range 0 255 1 _
+  · rw [h2]; exact specRanged_range 1 65535 0 _
+  · rw [h3]; rcases specRanged_range 15 1200 15 (lookupStr cfg "synchro_timeout") with h | h
+    · rw [h]; omega
+    · exact h
+  · rw [h4]; rcases specRanged_range 2 720 2 (lookupStr cfg "inactivity_ticks") with h | h
+    · rw [h]; omega
+    · exact h
+  · rw [h5]; rcases specRanged_range 10 1500 200 (lookupStr cfg "stats_histo") with h | h
+    · rw [h]; omega
+    · exact h
+  · rw [h6]; exact specEnum_mem _ _ _ (by decide)
+  · rw [h7]; exact specEnum_mem _ _ _ (by decide)
+  · rw [h8]; exact specEnum_mem _ _ _ (by decide)
+  · rw [h9]; exact specEnum_mem _ _ _ (by decide)
+
+/-- the full statement for `to_period`: the collecting period is in `[1;3600]` or is the default -/
+def C18_period_in_range_or_default_statement : Prop :=
+  ∀ (dflt : List String) (cfg : Config),
+    (convertOptions dflt cfg).collectingPeriod = .val 5 1 ∨ periodInRange (convertOptions dflt cfg).collectingPeriod = true
+
+/-- Known finding `C18:option:to_period:nan`: `1.0 > nan` and `nan > 3600.0` are both false, `nan` is kept.
+    Witness replayed on the implementation by `corpus/C18/kf_period_nan.json`. -/
+theorem C18_period_in_range_or_default_refuted : ¬ C18_period_in_range_or_default_statement := by
+  intro hs
+  have := hs syncDefault [("stats_collecting_period", "nan")]
+  revert this
+  decide
+
+/-- **`to_period`: in range or default**, under the exact excluded hypothesis: the text is not a spelling of `nan` -/
+theorem C18_period_in_range_or_default_partial (dflt : List String) (cfg : Config)
+    (hn : ∀ s, lookupStr cfg "stats_collecting_period" = some s → pyFloat s ≠ some .nan) :
+    (convertOptions dflt cfg).collectingPeriod = .val 5 1 ∨ periodInRange (convertOptions dflt cfg).collectingPeriod = true := by
+  simp only [convertOptions, getValue]
+  cases hl : lookupStr cfg "stats_collecting_period" with
+  | none => left; rfl
+  | some s =>
+    simp only
+    cases hp : toPeriod s with
+    | none => left; rfl
+    | some p => right; exact toPeriod_range s p hp (hn s hl)
+
+/-- the full statement for `to_periods`: one to three periods, each in `[1;3600]`, or the default -/
+def C18_periods_in_range_or_default_statement : Prop :=
+  ∀ (dflt : List String) (cfg : Config),
+    let ps := (convertOptions dflt cfg).statsPeriods
+    ps = [.val 10 1] ∨ ((∀ p ∈ ps, periodInRange p = true) ∧ 1 ≤ ps.length ∧ ps.length ≤ 3)
+
+/-- Known finding `C18:option:to_periods:nan` (the list is not even sorted then: `5,nan,1` is kept in that order) -/
+theorem C18_periods_in_range_or_default_refuted : ¬ C18_periods_in_range_or_default_statement := by
+  intro hs
+  have := hs syncDefault [("stats_periods", "5,nan,1")]
+  revert this
+  decide
+
+/-- **`to_periods`: in range or default**, under the exact excluded hypothesis: no item is a spelling of `nan` -/
+theorem C18_periods_in_range_or_default_partial (dflt : List String) (cfg : Config)
+    (hn : ∀ s, lookupStr cfg "stats_periods" = some s → ∀ x ∈ listOfStrings s, pyFloat x ≠ some .nan) :
+    let ps := (convertOptions dflt cfg).statsPeriods
+    ps = [.val 10 1] ∨ ((∀ p ∈ ps, periodInRange p = true) ∧ 1 ≤ ps.length ∧ ps.length ≤ 3) := by
+  simp only [convertOptions, getValue]
+  cases hl : lookupStr cfg "stats_periods" with
+  | none => left; rfl
+  | some s =>
+    simp only
+    cases hp : toPeriods s with
+    | none => left; rfl
+    | some ps =>
+      right
+      simp only [Option.getD_some]
+      unfold toPeriods at hp
+      simp only at hp
+      split at hp
+      · cases hp
+      · rename_i hlen
+        cases ho : optAll ((listOfStrings s).map toPeriod) with
+        | none => rw [ho] at hp; cases hp
+        | some raw =>
+          rw [ho] at hp
+          simp only [Option.map_some, Option.some.injEq] at hp
+          subst hp
+          obtain ⟨o1, o2⟩ := optAll_spec _ raw ho
+          obtain ⟨s1, s2⟩ := pySort_spec Period.lt raw
+          simp only [maxPeriods, beq_iff_eq, not_or, Nat.not_gt_eq] at hlen
+          refine ⟨?_, ?_, ?_⟩
+          · intro p hp
+            have hraw := (s2 p).mp hp
+            have := o2 p hraw
+            simp only [List.mem_map] at this
+            obtain ⟨x, hx, hxp⟩ := this
+            exact toPeriod_range x p hxp (hn s hl x hx)
+          · rw [s1, o1, List.length_map]; omega
+          · rw [s1, o1, List.length_map]; omega
+
+/-- **CORE / STRICT are dropped when their lists are empty; only an empty result is refused**: the options kept are
+    exactly the options asked for minus CORE without `core_identifiers` and STRICT without `supvisors_list`;
+    `check_options` raises iff nothing is left. -/
+theorem C18_synchro_cleanup (o : Options) (hnd : o.synchroOptions.Nodup) :
+    (∀ o', checkOptions o = .ok o' →
+      o'.synchroOptions ≠ [] ∧
+      ∀ x, x ∈ o'.synchroOptions ↔ x ∈ o.synchroOptions ∧ ¬(x = "CORE" ∧ o.coreIdentifiers.isEmpty = true) ∧
+        ¬(x = "STRICT" ∧ (o.supvisorsList.getD []).isEmpty = true)) ∧
+    ((∃ e, checkOptions o = .error e) ↔
+      ∀ x ∈ o.synchroOptions, (x = "CORE" ∧ o.coreIdentifiers.isEmpty = true) ∨
+        (x = "STRICT" ∧ (o.supvisorsList.getD []).isEmpty = true)) := by
+  have hm := mem_synchroCleanup o hnd
+  constructor
+  · intro o' h
+    unfold checkOptions at h
+    simp only at h
+    split at h
+    · cases h
+    · rename_i hne
+      have hsync : o'.synchroOptions = synchroCleanup o := by
+        split at h <;> (injection h with h; subst h; rfl)
+      rw [hsync]
+      exact ⟨by simpa using hne, hm⟩
+  · constructor
+    · rintro ⟨e, h⟩
+      unfold checkOptions at h
+      simp only at h
+      split at h
+      · rename_i hemp
+        intro x hx
+        have hnil : synchroCleanup o = [] := by simpa using hemp
+        have hnot : x ∉ synchroCleanup o := by rw [hnil]; simp
+        rw [hm x] at hnot
+        by_cases c1 : x = "CORE" ∧ o.coreIdentifiers.isEmpty = true
+        · exact Or.inl c1
+        · by_cases c2 : x = "STRICT" ∧ (o.supvisorsList.getD []).isEmpty = true
+          · exact Or.inr c2
+          · exact absurd ⟨hx, c1, c2⟩ hnot
+      · split at h <;> cases h
+    · intro hall
+      have hnil : synchroCleanup o = [] := by
+        cases hc : synchroCleanup o with
+        | nil => rfl
+        | cons x t =>
+          have hx : x ∈ synchroCleanup o := by rw [hc]; simp
+          rw [hm x] at hx
+          rcases hall x hx.1 with c | c
+          · exact absurd c hx.2.1
+          · exact absurd c hx.2.2
+      exact ⟨"ValueError", by simp [checkOptions, hnil]⟩
+
+/-- the options that reach `check_options` have no duplicate synchro option (hypothesis of `C18_synchro_cleanup`) -/
+theorem C18_synchro_options_nodup (dflt : List String) (cfg : Config) (hd : dflt.Nodup) :
+    (convertOptions dflt cfg).synchroOptions.Nodup := convertOptions_sync_nodup dflt cfg hd
+
+/-- **TIMEOUT forces `supvisors_failure_strategy` to CONTINUE**; without TIMEOUT the strategy is kept; nothing else
+    but the synchro options changes. -/
+theorem C18_timeout_forces_continue (o o' : Options) (h : checkOptions o = .ok o') :
+    ("TIMEOUT" ∈ o'.synchroOptions → o'.failureStrategy = "CONTINUE") ∧
+    ("TIMEOUT" ∉ o'.synchroOptions → o'.failureStrategy = o.failureStrategy) ∧
+    o' = { o with synchroOptions := o'.synchroOptions, failureStrategy := o'.failureStrategy } := by
+  unfold checkOptions at h
+  simp only at h
+  split at h
+  · cases h
+  · split at h
+    · rename_i hc
+      injection h with h; subst h
+      simp only [Bool.and_eq_true, List.contains_eq_mem, decide_eq_true_eq] at hc
+      exact ⟨fun _ => rfl, fun hn => absurd hc.1 hn, rfl⟩
+    · rename_i hc
+      injection h with h; subst h
+      simp only [Bool.and_eq_true, List.contains_eq_mem, decide_eq_true_eq, bne_iff_ne, ne_eq, not_and, Decidable.not_not] at hc
+      exact ⟨fun ht => hc ht, fun _ => rfl, rfl⟩
+
+/-- the synchro options of a construction result (`[]` when it raised) -/
+def okSync (r : Except Err Options) : List String := match r with | .ok o => o.synchroOptions | .error _ => []
+
+/-- the full statement "the effective options are a function of the dictionary": what an earlier construction in the same
+    interpreter did (a Supvisors restart re-creates the options in the same process) does not matter -/
+def C18_options_history_independent_statement : Prop :=
+  ∀ (cfg1 cfg2 : Config), (buildOptions (buildOptions syncDefault cfg1).2 cfg2).1 = (buildOptions syncDefault cfg2).1
+
+/-- Known finding `C18:option:synchro-default-mutated`: `check_options` removes CORE / STRICT in place from the class
+    attribute `SYNCHRO_DEFAULT_OPTIONS`; a later dictionary that falls back to the default gets the mutated list. -/
+theorem C18_options_history_independent_refuted : ¬ C18_options_history_independent_statement := by
+  intro hs
+  have := congrArg okSync (hs [("supvisors_list", "a")] [("supvisors_list", "a"), ("core_identifiers", "a")])
+  revert this
+  decide
+
+/-- under the exact excluded hypothesis — the earlier dictionary gives valid `synchro_options` of its own — the default is
+    left untouched -/
+theorem C18_options_history_independent_partial (cfg1 cfg2 : Config) (h : usesDefaultSync cfg1 = false) :
+    (buildOptions (buildOptions syncDefault cfg1).2 cfg2).1 = (buildOptions syncDefault cfg2).1 := by
+  simp [buildOptions, h]
+
 end Supv.Props.C18
